@@ -197,9 +197,37 @@ Proof.
     apply vlookup_in in E2; auto. congruence.
 Qed.
 
+(* ---- the sort used for zones: a permutation (names are distinct, so WHICH sorting algorithm is immaterial) *)
+Lemma insert_slot_perm x l : Permutation (insert_slot x l) (x :: l).
+Proof.
+  induction l as [|y r IH]; simpl; auto.
+  destruct (str_leb (s_name x) (s_name y)); auto.
+  rewrite IH. apply perm_swap.
+Qed.
+Lemma sort_slots_perm l : Permutation (sort_slots l) l.
+Proof.
+  induction l as [|x r IH]; simpl; auto. rewrite insert_slot_perm. now constructor.
+Qed.
+Lemma sort_slots_in x l : In x (sort_slots l) <-> In x l.
+Proof. split; apply Permutation_in; [|symmetry]; apply sort_slots_perm. Qed.
+Lemma sort_slots_nodup l : NoDup (map s_name l) -> NoDup (map s_name (sort_slots l)).
+Proof. intros H. eapply Permutation_NoDup; [|exact H]. apply Permutation_map. symmetry. apply sort_slots_perm. Qed.
+
+Lemma massoc_resort sk k m :
+  massoc k (resort sk m) = match massoc k m with Some l => Some (if sk k then sort_slots l else l) | None => None end.
+Proof.
+  induction m as [|[k' l] r IH]; simpl; auto.
+  destruct (String.eqb k k') eqn:E; auto. apply String.eqb_eq in E. now subst.
+Qed.
+Lemma mget_resort sk k m : mget k (resort sk m) = if sk k then sort_slots (mget k m) else mget k m.
+Proof.
+  unfold mget. rewrite massoc_resort. destruct (massoc k m); auto. now destruct (sk k).
+Qed.
+
 (* ------------------------------------------------------------------------------------------------ the invariant *)
 Section Content.
 Variable kok nok : string -> bool.
+Variable sk : string -> bool.
 Variable disp : string -> string -> daction.
 
 Definition disp_ok : Prop := forall k nm, kok k = true -> nok nm = true -> disp k nm = DShift k.
@@ -243,7 +271,7 @@ Proof. now destruct n. Qed.
 (* ---- views *)
 Lemma view_session_names s k : map fst (view_session s k) = map s_name (mget k (p_mir s)).
 Proof. unfold view_session. rewrite map_map. reflexivity. Qed.
-Lemma view_file_names s k : map fst (view_file s k) = map f_name (filter (fun n => String.eqb (f_kind n) k) (p_file s)).
+Lemma view_file_names s k : map fst (view_file sk s k) = map f_name (filter (fun n => String.eqb (f_kind n) k) (p_file s)).
 Proof. unfold view_file. rewrite map_map. reflexivity. Qed.
 
 Lemma in_view_session s k nm p : In (nm, p) (view_session s k) <-> exists id, In (mkS nm id p) (mget k (p_mir s)).
@@ -252,7 +280,7 @@ Proof.
   - intros [sl [E Hin]]. inversion E; subst. exists (s_id sl). now rewrite <- slot_eta.
   - intros [id Hin]. exists (mkS nm id p). auto.
 Qed.
-Lemma in_view_file s k nm p : In (nm, p) (view_file s k) <-> exists id, In (mkF id k nm p) (p_file s).
+Lemma in_view_file sk s k nm p : In (nm, p) (view_file sk s k) <-> exists id, In (mkF id k nm p) (p_file s).
 Proof.
   unfold view_file. rewrite in_map_iff. split.
   - intros [n [E Hin]]. apply filter_In in Hin. destruct Hin as [Hin Hk]. apply seqb_eq in Hk.
@@ -261,7 +289,7 @@ Proof.
 Qed.
 
 (* the session view and the view a fresh open would give agree as finite maps, and neither lists a name twice *)
-Lemma Inv_views_agree s : Inv s -> forall k nm, vlookup nm (view_session s k) = vlookup nm (view_file s k).
+Lemma Inv_views_agree s : Inv s -> forall k nm, vlookup nm (view_session s k) = vlookup nm (view_file sk s k).
 Proof.
   intros I k nm. apply vlookup_ext.
   - rewrite view_session_names. apply I.
@@ -270,13 +298,13 @@ Proof.
 Qed.
 Lemma Inv_session_nodup s : Inv s -> forall k, NoDup (map fst (view_session s k)).
 Proof. intros I k. rewrite view_session_names. apply I. Qed.
-Lemma Inv_file_nodup s : Inv s -> forall k, NoDup (map fst (view_file s k)).
+Lemma Inv_file_nodup s : Inv s -> forall k, NoDup (map fst (view_file sk s k)).
 Proof. intros I k. rewrite view_file_names. apply NoDup_map_filter. apply I. Qed.
 
-Lemma Rel_view_file s t : Inv s -> Rel s t -> forall k nm, vlookup nm (view_file s k) = i_view t k nm.
+Lemma Rel_view_file s t : Inv s -> Rel s t -> forall k nm, vlookup nm (view_file sk s k) = i_view t k nm.
 Proof.
   intros I R k nm. unfold i_view.
-  destruct (vlookup nm (view_file s k)) eqn:E.
+  destruct (vlookup nm (view_file sk s k)) eqn:E.
   - apply vlookup_in in E; [|now apply Inv_file_nodup]. apply in_view_file in E. apply R in E.
     now rewrite E, seqb_refl.
   - destruct (i_get nm t) as [[k' p]|] eqn:G; auto.
@@ -618,7 +646,7 @@ Qed.
 Lemma mget_regroup f k : mget k (regroup f) = map slot_of (filter (fun n => String.eqb (f_kind n) k) f).
 Proof. unfold regroup. now rewrite regroup_acc. Qed.
 
-Lemma reopen_sound s : Inv s -> Inv (reopen s).
+Lemma reopen_sound s : Inv s -> Inv (reopen sk s).
 Proof.
   intros I. constructor; simpl; try apply I.
   - intros k. rewrite mget_regroup. rewrite map_map. simpl. apply NoDup_map_filter. apply I.
@@ -627,9 +655,9 @@ Proof.
       unfold slot_of in E. inversion E; subst. now rewrite <- fnode_eta.
     + intros Hin. exists (mkF id k nm p). split; auto. apply filter_In. simpl. now rewrite seqb_refl.
 Qed.
-Lemma reopen_view s k : view_session (reopen s) k = view_file s k.
+Lemma reopen_view s k : view_session (reopen sk s) k = view_file sk s k.
 Proof. unfold view_session, view_file. simpl. rewrite mget_regroup. now rewrite map_map. Qed.
-Lemma reopen_file s k : view_file (reopen s) k = view_file s k.
+Lemma reopen_file s k : view_file (reopen sk s) k = view_file sk s k.
 Proof. reflexivity. Qed.
 
 (* ------------------------------------------------------------------------------------------------ histories *)
@@ -647,7 +675,7 @@ Fixpoint writes_ok (t : ideal) (ops : list op) : Prop :=
 Lemma step_sound s t o :
   Inv s -> Rel s t -> disp_ok -> op_names_ok kok nok o = true ->
   write_succeeds t o ->
-  snd (step disp s o) = snd (i_step t o) /\ Inv (fst (step disp s o)) /\ Rel (fst (step disp s o)) (fst (i_step t o)).
+  snd (step sk disp s o) = snd (i_step t o) /\ Inv (fst (step sk disp s o)) /\ Rel (fst (step sk disp s o)) (fst (i_step t o)).
 Proof.
   intros I R D Hn Hw. destruct o as [k nm p|k nm p|nm|].
   - simpl in Hn. apply andb_prop in Hn. destruct Hn as [Hk Hnm].
@@ -663,16 +691,16 @@ Proof.
   - simpl. split; auto. split; [now apply reopen_sound|]. intros nm k p. simpl. apply R.
 Qed.
 
-Lemma run_cons s o r : run disp s (o :: r) =
-  (fst (run disp (fst (step disp s o)) r), snd (step disp s o) :: snd (run disp (fst (step disp s o)) r)).
-Proof. simpl. destruct (step disp s o) as [s1 st]. simpl. now destruct (run disp s1 r). Qed.
+Lemma run_cons s o r : run sk disp s (o :: r) =
+  (fst (run sk disp (fst (step sk disp s o)) r), snd (step sk disp s o) :: snd (run sk disp (fst (step sk disp s o)) r)).
+Proof. simpl. destruct (step sk disp s o) as [s1 st]. simpl. now destruct (run sk disp s1 r). Qed.
 Lemma i_run_cons t o r : i_run t (o :: r) =
   (fst (i_run (fst (i_step t o)) r), snd (i_step t o) :: snd (i_run (fst (i_step t o)) r)).
 Proof. simpl. destruct (i_step t o) as [t1 st]. simpl. now destruct (i_run t1 r). Qed.
 
 Theorem run_sound ops : forall s t,
   Inv s -> Rel s t -> disp_ok -> ops_ok ops -> writes_ok t ops ->
-  snd (run disp s ops) = snd (i_run t ops) /\ Inv (fst (run disp s ops)) /\ Rel (fst (run disp s ops)) (fst (i_run t ops)).
+  snd (run sk disp s ops) = snd (i_run t ops) /\ Inv (fst (run sk disp s ops)) /\ Rel (fst (run sk disp s ops)) (fst (i_run t ops)).
 Proof.
   induction ops as [|o r IH]; intros s t I R D Ho Hw.
   - simpl. auto.
@@ -685,14 +713,14 @@ Qed.
 (* C04_content, spelled out *)
 Theorem content_agree ops s0 t0 :
   Inv s0 -> Rel s0 t0 -> disp_ok -> ops_ok ops -> writes_ok t0 ops ->
-  let s := fst (run disp s0 ops) in
+  let s := fst (run sk disp s0 ops) in
   let t := fst (i_run t0 ops) in
-  snd (run disp s0 ops) = snd (i_run t0 ops) /\
+  snd (run sk disp s0 ops) = snd (i_run t0 ops) /\
   (forall k nm, vlookup nm (view_session s k) = i_view t k nm) /\
-  (forall k nm, vlookup nm (view_file s k) = i_view t k nm) /\
-  (forall k, view_session (reopen s) k = view_file s k) /\
+  (forall k nm, vlookup nm (view_file sk s k) = i_view t k nm) /\
+  (forall k, view_session (reopen sk s) k = view_file sk s k) /\
   (forall k, NoDup (map fst (view_session s k))) /\
-  (forall k, NoDup (map fst (view_file s k))).
+  (forall k, NoDup (map fst (view_file sk s k))).
 Proof.
   intros I R D Ho Hw. destruct (run_sound ops s0 t0 I R D Ho Hw) as [E [I' R']].
   cbv zeta. split; auto. split; [|split; [|split; [|split]]].
@@ -726,8 +754,8 @@ Theorem step_frame s t o :
   Inv s -> Rel s t -> disp_ok -> op_names_ok kok nok o = true ->
   write_succeeds t o ->
   forall k' nm', op_name o <> Some nm' ->
-    vlookup nm' (view_session (fst (step disp s o)) k') = vlookup nm' (view_session s k') /\
-    vlookup nm' (view_file (fst (step disp s o)) k') = vlookup nm' (view_file s k').
+    vlookup nm' (view_session (fst (step sk disp s o)) k') = vlookup nm' (view_session s k') /\
+    vlookup nm' (view_file sk (fst (step sk disp s o)) k') = vlookup nm' (view_file sk s k').
 Proof.
   intros I R D Hn Hw k' nm' Hne.
   destruct (step_sound s t o I R D Hn Hw) as [_ [I' R']].
@@ -758,12 +786,12 @@ Qed.
 Definition OrdInv (s : parent) : Prop :=
   forall k, mget k (p_mir s) = map slot_of (filter (fun n => String.eqb (f_kind n) k) (p_file s)).
 
-Lemma OrdInv_views s : OrdInv s -> forall k, view_session s k = view_file s k.
+Lemma OrdInv_views s : OrdInv s -> forall k, view_session s k = view_file sk s k.
 Proof. intros O k. unfold view_session, view_file. rewrite O. now rewrite map_map. Qed.
 
 Lemma OrdInv_empty : OrdInv empty_parent.
 Proof. intros k. reflexivity. Qed.
-Lemma OrdInv_reopen s : OrdInv (reopen s).
+Lemma OrdInv_reopen s : OrdInv (reopen sk s).
 Proof. intros k. simpl. apply mget_regroup. Qed.
 
 Lemma app_snoc_last {A} (l1 l2 l3 : list A) x : l1 ++ x :: l2 = l3 ++ [x] -> ~ In x l2 -> l2 = [].
@@ -851,7 +879,7 @@ Qed.
 Lemma step_order s t o :
   Inv s -> Rel s t -> OrdInv s -> disp_ok -> op_names_ok kok nok o = true ->
   write_succeeds t o ->
-  order_safe s o = true -> OrdInv (fst (step disp s o)).
+  order_safe s o = true -> OrdInv (fst (step sk disp s o)).
 Proof.
   intros I R O D Hn Hw Hs. destruct o as [k nm p|k nm p|nm|]; [| | |apply OrdInv_reopen].
   - (* write *)
@@ -926,7 +954,7 @@ Qed.
 
 Theorem run_order ops : forall s t,
   Inv s -> Rel s t -> OrdInv s -> disp_ok -> ops_ok ops -> writes_ok t ops ->
-  hist_order_safe disp s ops = true -> OrdInv (fst (run disp s ops)).
+  hist_order_safe sk disp s ops = true -> OrdInv (fst (run sk disp s ops)).
 Proof.
   induction ops as [|o r IH]; intros s t I R O D Ho Hw Hs; [exact O|].
   inversion Ho; subst. destruct Hw as [Hw1 Hw2]. simpl in Hs. apply andb_prop in Hs. destruct Hs as [Hs1 Hs2].
@@ -1040,8 +1068,8 @@ Proof. split; [apply Inv_empty|apply Rel_empty]. Qed.
 
 Theorem order_views kok nok disp ops s0 t0 :
   Inv kok s0 -> Rel s0 t0 -> OrdInv s0 -> disp_ok kok nok disp -> ops_ok kok nok ops -> writes_ok t0 ops ->
-  hist_order_safe disp s0 ops = true ->
-  forall k, view_session (fst (run disp s0 ops)) k = view_file (fst (run disp s0 ops)) k.
+  hist_order_safe sk disp s0 ops = true ->
+  forall k, view_session (fst (run sk disp s0 ops)) k = view_file (fst (run sk disp s0 ops)) k.
 Proof.
   intros I R O D Ho Hw Hs k. apply OrdInv_views. eapply run_order; eauto.
 Qed.
@@ -1051,14 +1079,14 @@ Theorem content_tables dt nd gt pl ops :
   let nok := fun nm => negb (smem nm (reserved_names dt nd pl)) in
   let disp := disp_of dt nd gt pl in
   ops_ok kok nok ops -> writes_ok [] ops ->
-  let s := fst (run disp empty_parent ops) in
+  let s := fst (run sk disp empty_parent ops) in
   let t := fst (i_run [] ops) in
-  snd (run disp empty_parent ops) = snd (i_run [] ops) /\
+  snd (run sk disp empty_parent ops) = snd (i_run [] ops) /\
   (forall k nm, vlookup nm (view_session s k) = i_view t k nm) /\
-  (forall k nm, vlookup nm (view_file s k) = i_view t k nm) /\
-  (forall k, view_session (reopen s) k = view_file s k) /\
+  (forall k nm, vlookup nm (view_file sk s k) = i_view t k nm) /\
+  (forall k, view_session (reopen sk s) k = view_file sk s k) /\
   (forall k, NoDup (map fst (view_session s k))) /\
-  (forall k, NoDup (map fst (view_file s k))).
+  (forall k, NoDup (map fst (view_file sk s k))).
 Proof.
   intros kok nok disp Ho Hw.
   exact (content_agree kok nok disp ops empty_parent [] (Inv_empty kok) Rel_empty (dispatch_disp_ok dt nd gt pl) Ho Hw).
@@ -1077,7 +1105,7 @@ Lemma order_refuted :
   writes_ok [] order_witness /\
   let s := fst (run all_shift empty_parent order_witness) in
   vindex "S1" (view_session s K_SOL) = Some 0%nat /\
-  vindex "S1" (view_session (reopen s) K_SOL) = Some 2%nat /\
+  vindex "S1" (view_session (reopen sk s) K_SOL) = Some 2%nat /\
   view_session s K_SOL = [("S1", 4); ("S2", 2); ("S3", 3)] /\
   view_file s K_SOL = [("S2", 2); ("S3", 3); ("S1", 4)].
 Proof. vm_compute. repeat split; reflexivity. Qed.
